@@ -15,6 +15,7 @@ QUICK = 350000
 THOROUGH = 1000000
 
 PROP = {
+    "ready": True,
     "harness": ["harness/C08.cpp"],
     "units": vpdriver.libc_units(["string/%s.c" % f for f in STRING]),
     "targets": [{"name": "str_enum", "mode": "enum"}]
